@@ -7,8 +7,7 @@ use crate::interpreter::interpreter_trait::InterpreterTrait;
 pub fn run<S: InterpreterTrait>(interpreter: &mut S) -> Result<(), RuntimeError> {
     let path = interpreter
         .context()
-        .variables()
-        .get_arg_path(0)
+        .arg_path(0)
         .expect("VARPTR should have a variable");
     // VARPTR is an INTEGER function: an offset that does not fit an INTEGER is an Overflow
     let address: i32 = (interpreter.context().calculate_varptr(path)? as i64).try_cast()?;
